@@ -19,6 +19,11 @@ RULE = ("per proof site (ServerKeyExchange signature SSLv3..1.2, client "
         "the proof, or knows the wrong SRP password / PSK; oracle on the "
         "pristine verifier: corrupted => it must not end 'completed with "
         "that identity'; honest control => completes with the identity. "
+        "Further sites: copied TLS 1.3 ticket (also in front of an "
+        "external PSK the peer does hold), delegated credentials, SRP "
+        "with degenerate public values, Checker (mismatch, retry with "
+        "the refused session, chains of two certificates, external PSK "
+        "next to a pin).   "
         "distinct_nontrivial = distinct (site, key type, class, verdict).")
 ASSUMPTIONS = [
     "the corruption is applied inside the prover (key proxy / deviant send "
